@@ -1,7 +1,7 @@
 #!/usr/bin/env python3
 """Shared machinery of the argument-handler checks (C01-C09, C18): ArgEval/ArgDecl specifications,
 arg_driver, seeded generators (tools/arggen.py)."""
-import os, sys, json, collections
+import random, os, sys, json, collections
 sys.path.insert(0, os.path.join(os.path.dirname(os.path.abspath(__file__)), "..", "tools"))
 from vlib import *
 import arggen
@@ -56,12 +56,23 @@ def model_behaviours(c, tier, cfgsel=None, maxuses=None):
     return cfgs, beh
 
 
-def behaviours_script(cfgs, beh, path, select=None, mode="handler"):
-    """Script replaying model behaviours: one Reset per configuration."""
+REPLAY_CAP = 600000
+
+
+def behaviours_script(cfgs, beh, path, select=None, mode="handler", cap=None):
+    """Script replaying model behaviours: one Reset per configuration.  More than `cap` behaviours (default REPLAY_CAP): a
+    seeded sample, the same share of every configuration (the model itself is always checked exhaustively by TLC)."""
     by = collections.defaultdict(list)
     for b in beh:
         if select is None or select(b):
             by[b["ci"]].append(b)
+    cap = cap or REPLAY_CAP
+    total = sum(len(v) for v in by.values())
+    if total > cap:
+        rnd = random.Random(SEED * 31 + 7)
+        for ci in sorted(by):
+            by[ci] = rnd.sample(by[ci], max(1, len(by[ci]) * cap // total))
+        log("[R] %d of %d model behaviours selected for the replay (seeded sample)" % (sum(len(v) for v in by.values()), total))
     n = 0
     with open(path, "w") as f:
         for ci in sorted(by):
